@@ -115,7 +115,7 @@ pub fn op<K: Raw>(op: &str, a: &[&str]) -> String {
         "kmersb" => show_list(&K::kmers_from_bytes(&digits(a[0]))),
         "kmersa" => show_list(&K::kmers_from_ascii(a[0].as_bytes())),
         "extend" => show_k(&k(0).extend(n(1) as u8, if a[2] == "R" { Dir::Right } else { Dir::Left })),
-        "iter" => { let v: Vec<u8> = k(0).iter().collect(); show_digits(&v) }
+        "iter" => { let x = k(0); let v: Vec<u8> = x.iter().collect(); format!("{} it={}", show_digits(&v), adaptors(|| x.iter(), |b| b.to_string())) }
         "setimm" => { use debruijn::MerImmut; let x = k(0); let y = x.set(n(1), n(2) as u8); format!("{}|{}", show_k(&y), show_k(&x)) }
         "setsliceimm" => { use debruijn::MerImmut; let x = k(0); let y = x.set_slice(n(1), n(2), u64::from_str_radix(a[3], 16).unwrap()); format!("{}|{}", show_k(&y), show_k(&x)) }
         "meta" => { let x = k(0); format!("len={} empty={} k={} zero={}", x.len(), x.is_empty() as u8, K::k(), show_k(&K::empty())) }
